@@ -92,7 +92,9 @@ package atree
 //@   ensures[C06] err == nil ==> wfMM(m) && wfMM(as(right, *MapMetaDataSlab)) && as(right, *MapMetaDataSlab).extraData == nil
 //@   ensures[C09] err == nil ==> m.header.slabID == old(m.header.slabID) && as(right, *MapMetaDataSlab).header.slabID.address == old(m.header.slabID.address) &&
 //@        as(right, *MapMetaDataSlab).header.slabID != SlabIDUndefined && sto[as(right, *MapMetaDataSlab).header.slabID] == nil
-//@   modifies m.childrenHeaders, m.header, ghost.touched, alloc
+//@   # the identifier of the new slab was not handed out before (so it differs from identifiers generated earlier but not stored yet)
+//@   ensures[C09] err == nil ==> !has(old(issued), as(right, *MapMetaDataSlab).header.slabID) && has(issued, as(right, *MapMetaDataSlab).header.slabID) && (forall id SlabID :: has(old(issued), id) ==> has(issued, id))
+//@   modifies m.childrenHeaders, m.header, ghost.touched, alloc, ghost.issued
 
 //@ func (m *MapMetaDataSlab) LendToRight(slab) (err)  serves C02 C05 C06
 //@   requires is(slab, *MapMetaDataSlab) && m != slab && wfMM(m) && wfMM(as(slab, *MapMetaDataSlab)) &&
@@ -142,7 +144,7 @@ package atree
 //@   ensures[C05] err == nil ==> mhdrBand(m.childrenHeaders[chi]) && mhdrBand(m.childrenHeaders[chi + 1])
 //@   ensures[C02 C03] err == nil ==> has(stored, m) && has(stored, sto[m.childrenHeaders[chi].slabID]) && has(stored, sto[m.childrenHeaders[chi + 1].slabID])
 //@   ensures[C09] forall id SlabID :: old(sto[id]) != nil && id != old(m.header.slabID) && id != old(m.childrenHeaders)[chi].slabID ==> sto[id] == old(sto[id])
-//@   modifies m.childrenHeaders, m.header, ghost.sto, ghost.stored, ghost.touched, alloc,
+//@   modifies m.childrenHeaders, m.header, ghost.sto, ghost.issued, ghost.stored, ghost.touched, alloc,
 //@        as(child, *MapDataSlab).elements, as(child, *MapDataSlab).header, as(child, *MapDataSlab).next, hkeyElements.*@inSub(child), singleElements.*@inSub(child),
 //@        as(child, *MapMetaDataSlab).childrenHeaders, as(child, *MapMetaDataSlab).header
 
@@ -170,7 +172,7 @@ package atree
 //@   ensures[C09] err == nil ==> mAgree(m)
 //@   ensures[C02 C03] err == nil ==> has(stored, m) && has(stored, l) && has(stored, r)
 //@   ensures[C09] forall id SlabID :: id != old(m.header.slabID) && id != old(m.childrenHeaders)[li].slabID && id != old(m.childrenHeaders)[ri].slabID ==> sto[id] == old(sto[id])
-//@   modifies m.childrenHeaders, m.header, ghost.sto, ghost.stored, ghost.touched, alloc,
+//@   modifies m.childrenHeaders, m.header, ghost.sto, ghost.issued, ghost.stored, ghost.touched, alloc,
 //@        as(l, *MapDataSlab).elements, as(l, *MapDataSlab).header, as(r, *MapDataSlab).elements, as(r, *MapDataSlab).header, hkeyElements.*@inSub(l), hkeyElements.*@inSub(r),
 //@        as(l, *MapMetaDataSlab).childrenHeaders, as(l, *MapMetaDataSlab).header, as(r, *MapMetaDataSlab).childrenHeaders, as(r, *MapMetaDataSlab).header
 
@@ -193,7 +195,7 @@ package atree
 //@   ensures[C09] err == nil ==> mAgree(m)
 //@   ensures[C02 C03] err == nil ==> has(stored, m) && has(stored, l)
 //@   ensures[C09] forall id SlabID :: id != old(m.header.slabID) && id != old(m.childrenHeaders)[li].slabID && id != old(m.childrenHeaders)[ri].slabID ==> sto[id] == old(sto[id])
-//@   modifies m.childrenHeaders, m.header, ghost.sto, ghost.stored, ghost.touched, alloc,
+//@   modifies m.childrenHeaders, m.header, ghost.sto, ghost.issued, ghost.stored, ghost.touched, alloc,
 //@        as(l, *MapDataSlab).elements, as(l, *MapDataSlab).header, as(l, *MapDataSlab).next, hkeyElements.*@inSub(l), singleElements.*@inSub(l),
 //@        as(l, *MapMetaDataSlab).childrenHeaders, as(l, *MapMetaDataSlab).header
 
@@ -216,7 +218,7 @@ package atree
 //@   ensures[C09] err == nil ==> mAgree(m)
 //@   ensures[C02 C03] err == nil ==> has(stored, m)
 //@   modifies MapMetaDataSlab.childrenHeaders@inSub(m), MapMetaDataSlab.header@inSub(m), MapDataSlab.elements@inSub(m), MapDataSlab.header@inSub(m), MapDataSlab.next@inSub(m),
-//@        hkeyElements.*@inSub(m), singleElements.*@inSub(m), ghost.sto, ghost.stored, ghost.touched, alloc
+//@        hkeyElements.*@inSub(m), singleElements.*@inSub(m), ghost.sto, ghost.issued, ghost.stored, ghost.touched, alloc
 
 //@ pred stoFrameMM(m *MapMetaDataSlab, vr1 ref, vr2 ref) = forall id SlabID :: old(sto[id]) != nil && old(sto[id]) != vr1 && old(sto[id]) != vr2 && !inSub(m, old(sto[id])) ==> sto[id] == old(sto[id])
 
@@ -244,7 +246,7 @@ package atree
 //@   ensures[C18] err != nil ==> categorised(err) || true
 //@   modifies MapMetaDataSlab.childrenHeaders@inSub(m), MapMetaDataSlab.header@inSub(m), MapDataSlab.*@inSub(m),
 //@        hkeyElements.*@inSub(m), singleElements.*@inSub(m), singleElement.*@inSub(m), inlineCollisionGroup.*@inSub(m), externalCollisionGroup.*@inSub(m),
-//@        ghost.sto, ghost.stored, ghost.touched, alloc
+//@        ghost.sto, ghost.issued, ghost.stored, ghost.touched, alloc
 //@   loop 1: invariant 0 <= i && i <= j && j <= len(m.childrenHeaders) && -1 <= ans && ans < len(m.childrenHeaders) && ans == i - 1 &&
 //@        (forall q :: 0 <= q && q < i ==> m.childrenHeaders[q].firstKey <= hkey) && (forall q :: j <= q && q < len(m.childrenHeaders) ==> m.childrenHeaders[q].firstKey > hkey)
 
@@ -261,7 +263,7 @@ package atree
 //@   ensures[C02 C03] err == nil ==> has(stored, m)
 //@   modifies MapMetaDataSlab.childrenHeaders@inSub(m), MapMetaDataSlab.header@inSub(m), MapDataSlab.*@inSub(m),
 //@        hkeyElements.*@inSub(m), singleElements.*@inSub(m), singleElement.*@inSub(m), inlineCollisionGroup.*@inSub(m), externalCollisionGroup.*@inSub(m),
-//@        ghost.refusals, ghost.sto, ghost.stored, ghost.touched, alloc,
+//@        ghost.refusals, ghost.sto, ghost.issued, ghost.stored, ghost.touched, alloc,
 //@        as(valueRoot(key), *ArrayDataSlab).header, as(valueRoot(key), *ArrayDataSlab).inlined, as(valueRoot(key), *MapDataSlab).header, as(valueRoot(key), *MapDataSlab).inlined,
 //@        as(valueRoot(value), *ArrayDataSlab).header, as(valueRoot(value), *ArrayDataSlab).inlined, as(valueRoot(value), *MapDataSlab).header, as(valueRoot(value), *MapDataSlab).inlined
 //@   loop 1: invariant 0 <= i && i <= j && j <= len(m.childrenHeaders) && 0 <= ans && ans < len(m.childrenHeaders) && (i > 0 ==> ans == i - 1) && (i == 0 ==> ans == 0) &&
